@@ -26,7 +26,16 @@ func (w *World) checkNode(n *Node, st *State, phase string) {
 			return
 		}
 		base := map[string]string{"roots": "C01", "lookup": "C10", "prove": "C02"}[o.kind]
-		w.violate(n, w.attr(n, base, o.kind), o.class, fmt.Sprintf("[%s, block %d] %s", phase, n.at, o.detail))
+		prop := base
+		if o.kind == "roots" || base != w.opt.Property {
+			prop = w.attr(n, base, o.kind)
+		}
+		// Look-up and proving observations are only made once leaf count and roots
+		// agree with the model.  C10 and C02 quantify over every reachable state
+		// (also after Undo, Verify-with-remember, restore), so their own checks own
+		// such a mismatch whatever the node's provenance; the checks of C06 / C09 /
+		// C13 additionally see it through the attribution twins.
+		w.violate(n, prop, o.class, fmt.Sprintf("[%s, block %d] %s", phase, n.at, o.detail))
 		if o.kind == "roots" {
 			n.tainted = true
 		}
@@ -160,10 +169,7 @@ func (w *World) observeLookups(n *Node, st *State, seed uint64) (out []obs) {
 		}
 		return true
 	}
-	for ro, h := range L.Nodes {
-		if L.IsLeaf[ro] {
-			continue
-		}
+	for _, h := range L.InternalHashes() {
 		if !probe(h, "internal") {
 			return
 		}
@@ -172,6 +178,28 @@ func (w *World) observeLookups(n *Node, st *State, seed uint64) (out []obs) {
 	fresh[0], fresh[5], fresh[31] = 0xfe, byte(r.Next()), 0x11
 	if !probe(zeroH, "zero") || !probe(fresh, "fresh") {
 		return
+	}
+	// leaves that exist only on other branches / in undone blocks: never added in this state
+	if len(w.blocks) > 1 {
+		inState := make(map[H]bool, len(st.Leaves))
+		for _, h := range st.Leaves {
+			inState[h] = true
+		}
+		budget := 48
+		for bi := len(w.blocks) - 1; bi >= 1 && budget > 0; bi-- {
+			for _, h := range w.blocks[bi].Adds {
+				if inState[h] {
+					break // this block is part of the state's history
+				}
+				budget--
+				if !probe(h, "other-branch") {
+					return
+				}
+				if budget <= 0 {
+					break
+				}
+			}
+		}
 	}
 	// batch look-up on map forests
 	if n.isMap() && len(st.Leaves) > 0 {
